@@ -365,9 +365,13 @@ class _set_skip_existing_None(set_skip_existing):
                 and all(key in tensordict.keys(True) for key in out_keys)
                 and not any(key in out_keys for key in in_keys)
             ):
+                # the input is handed back as it is: tell the forward hooks (select_out_keys) that
+                # the forward did not run, so that they leave it alone too
+                _self.__dict__["_forward_skipped"] = True
                 return tensordict
             if is_compiling():
                 return func(_self, tensordict, *args, **kwargs)
+            _self.__dict__["_forward_skipped"] = False
             self.prev = _skip_existing.get_mode()
             try:
                 result = func(_self, tensordict, *args, **kwargs)
